@@ -683,3 +683,45 @@ contract(
            "pdb2pqr.residue:Residue.set_donors_acceptors": None},
     name="Carboxylic.__init__", native=False,
 )
+
+
+# ---------------------------------------------------------------- Carboxylic.rename: names only
+# The force fields want the acid hydrogen to be called <H>2 and the oxygen that carries it to be called <O>2 (the names
+# the optimisation definition pairs).  Whatever alternative survived (<H>11, <H>12, <H>21, <H>22) and on whichever oxygen:
+# afterwards the hydrogen is <H>2, its oxygen is <O>2, the other oxygen <O>1, names are unique, map and list agree - and
+# nothing but names and the name map is written (no coordinate, no bond, no cell).
+def _carboxylic_rename(tag, on, hnames, listed):
+    contract(
+        "pdb2pqr.hydrogens.structures:Carboxylic.rename", ["C03", "C01", "C14"],
+        params={"self": Obj("pdb2pqr.hydrogens.structures:Carboxylic", atomlist=Items(*[Ref(x) for x in listed]),
+                            residue=Named("res", Obj(
+                                "pdb2pqr.aa:ASP", name=Const("ASP"),
+                                atoms=Items(Ref("c_cg"), Ref("c_od1"), Ref("c_od2"), Ref("hyd")),
+                                map=DictOf(("CG", CA_("c_cg", "CG", ["c_od1", "c_od2"])),
+                                           ("OD1", CA_("c_od1", "OD1", ["c_cg"] + (["hyd"] if on == "c_od1" else []))),
+                                           ("OD2", CA_("c_od2", "OD2", ["c_cg"] + (["hyd"] if on == "c_od2" else []))),
+                                           (Ref("hname"), Named("hyd", Obj("pdb2pqr.structures:Atom", name=Named("hname", Enum(*hnames)),
+                                                                           x=Named("hx", Real), y=Named("hy", Real), z=Named("hz", Real),
+                                                                           bonds=Items(Ref(on)), residue=Ref("res"),
+                                                                           reg=TupleOf(Ref("hx"), Ref("hy"), Ref("hz")))))))),
+                            optinstance=Obj("Opt", map=DictOf(("HD1", Obj("OptAtom", bond=Const("OD1"))),
+                                                              ("HD2", Obj("OptAtom", bond=Const("OD2")))))),
+                "hydatom": Ref("hyd")},
+        requires=[],
+        ensures=[
+            "hyd.name == 'HD2' and hyd.bonds[0].name == 'OD2'",
+            "(c_od1.name == 'OD1' and c_od2.name == 'OD2') or (c_od1.name == 'OD2' and c_od2.name == 'OD1')",
+            "len(res.map) == 4 and len(res.atoms) == 4 and forall(res.atoms, lambda a: res.map[a.name] is a)",
+            "registered(hyd) and registered(c_od1) and registered(c_od2)",
+            # both oxygens are on the optimiser's list afterwards
+            "len(self.atomlist) == 2",
+        ],
+        modifies=["hyd.name", "c_od1.name", "c_od2.name", "res.map.*", "self.atomlist.*"],
+        name=f"Carboxylic.rename.{tag}", native=False,
+    )
+
+
+_carboxylic_rename("on_o1.both_listed", "c_od1", ["HD11", "HD12"], ["c_od1", "c_od2"])
+_carboxylic_rename("on_o2.both_listed", "c_od2", ["HD21", "HD22"], ["c_od1", "c_od2"])
+_carboxylic_rename("on_o1.one_listed", "c_od1", ["HD11", "HD12"], ["c_od1"])
+_carboxylic_rename("on_o2.one_listed", "c_od2", ["HD21", "HD22"], ["c_od2"])
